@@ -350,7 +350,7 @@ package vm
 //@            ==> ip == old(ip) + 1 && replaced2(vm) && topNull(vm)
 //@ loop 1 step @C16 @C01 step.index.bad: op == code.OpIndex && old(depth(vm)) >= 2 && ((isHash(T2(vm)) && !hashable(T1(vm))) || ((isArray(T2(vm)) || isStr(T2(vm))) && !isInt(T1(vm))) || (!isArray(T2(vm)) && !isStr(T2(vm)) && !isHash(T2(vm)))) ==> false
 // iteration
-//@ loop 1 step @C02 @C06 step.iterreset: op == code.OpIterationReset && old(depth(vm)) >= 1 && (isArray(T1(vm)) || isStr(T1(vm)) || isHash(T1(vm)))
+//@ loop 1 step @C02 @C06 @C07 @C11 @C19 step.iterreset: op == code.OpIterationReset && old(depth(vm)) >= 1 && (isArray(T1(vm)) || isStr(T1(vm)) || isHash(T1(vm)))
 //@            ==> ip == old(ip) + 1 && replaced1(vm) && top(vm) === T1(vm) && iterOffset(T1(vm)) == 0
 //@            && len(locals(vm)) == old(len(locals(vm))) + 1 && (forall i in 0..old(len(locals(vm))) :: locals(vm)[i] == old(locals(vm)[i])) && len(locals(vm)[old(len(locals(vm)))]) == 0 && fresh(locals(vm)[old(len(locals(vm)))])
 //@ loop 1 step @C02 step.iterreset.bad: op == code.OpIterationReset && old(depth(vm)) >= 1 && !(isArray(T1(vm)) || isStr(T1(vm)) || isHash(T1(vm))) ==> false
@@ -430,12 +430,25 @@ package vm
 // one function, stores the result under that function's own name in a fresh map and restores
 // vm.bytecode - the iterations commute.  (The debug Printf inside the loop is a listing.)
 //@ func New(constants []object.Object, bytecode code.Instructions, functions map[string]environment.UserFunction, env *environment.Environment) (result *VM)
-//@   requires env != nil
+//@   tags C08
+//@   requires env != nil && env.global != nil
 //@   modifies comp(E_byte)
-//@   ensures @C09 new.vm: result != nil && fresh(result) && result.context != nil && result.environment == env && result.stack != nil && result.constants === constants
-//@   trusted the optimizer passes it calls are not under contract yet: that New writes nothing but bytecode bytes and the new machine is assumed
-//@   panics maybe
+//@   ensures @C09 new.vm: result != nil && fresh(result)
+//@   ensures @C09 new.vm.context: result.context != nil
+//@   ensures new.vm.env: result.environment == env
+//@   ensures new.vm.stack: result.stack != nil
+//@   ensures new.vm.constants: result.constants === constants
+//@   loop 1 invariant new.inv: vm != nil && fresh(vm) && vm.context != nil && vm.environment == env && vm.stack != nil && vm.constants === constants
+//@   panics never
 //@   maporder listing: every iteration restores vm.bytecode and writes only tmp[name]; the debug line is a listing
+
+// The optimizer passes are not under contract: that a pass writes nothing but the machine's bytecode
+// (the slice header and its bytes) and returns is assumed here; the bounded harnesses of C03, C08 and
+// C18 run them on generated scripts.
+//@ func (vm *VM) optimizeBytecode() (saved int)
+//@   modifies vm.bytecode, comp(E_byte)
+//@   trusted the passes it runs are not under contract: their frame and that they return are assumed (bounded harnesses rac.C03, rac.C08, rac.C18 exercise them)
+//@   panics never
 
 //@ func (vm *VM) SetContext(ctx context.Context)
 //@   modifies vm.context
